@@ -102,3 +102,5 @@ Corollary outputs_refine_head d r t ops h : abs d h r = Some t -> ops_ok fixed_s
 Proof. intros H G. exact (outputs_refine_fixed fixed_shared_edge_dicts fixed_D98 d r t ops h H G). Qed.
 Corollary outputs_refine_all d r t ops h : abs d h r = Some t -> snd (mrun_gen true true true d r (h, book0) ops) = map (mstepS d t) ops.
 Proof. intros H. apply (outputs_refine_fixed true true d r t ops h H). apply ops_ok_all_fixed. Qed.
+Corollary outputs_refine_now d r t ops h : abs d h r = Some t -> snd (mrun d r (h, book0) ops) = map (mstepS d t) ops.
+Proof. intros H. apply outputs_refine_head; [exact H|]. apply ops_ok_all_fixed. Qed.
